@@ -4,6 +4,7 @@ import I18n.Lemmas.CharsetCharmaps
 import I18n.Lemmas.CharsetIconv
 import I18n.Lemmas.CharsetIconvSchedule
 import I18n.Lemmas.CharsetIconvCodecs
+import I18n.Lemmas.CharsetEncodeOk
 import I18n.Lemmas.CharsetCheckTags
 import I18n.Lemmas.CharsetEucTw
 import I18n.Lemmas.CharsetEucTwReal
@@ -871,6 +872,22 @@ theorem check_unrepresentable_iff (env : Env) (encoding : Name) (isTemplate : Bo
     (∀ e cs, Tag.unrepresentable e cs ∈ tags →
       e = kept ∧ cs = truncateChars (chars.filter fun c => env.encode kept c != .ok)) :=
   checkCharset_unrepresentable_iff env encoding isTemplate chars tags kept h hk
+
+/-- **the hypothesis `EncodeOk` is a theorem for the extra codecs as modelled** (every charmap table, EUC-TW over any CNS tables): only
+    Unicode errors, and a concatenation encodes only if every piece does — so for them `unrepresentable_iff` and
+    `check_unrepresentable_iff` hold without side condition: the characters reported are exactly the listed ones with a character
+    outside the table -/
+theorem extra_codecs_encode_ok (chars : List (List Nat)) :
+    (∀ table, EncodeOk (encOfExcept (charmapEncode table)) chars) ∧
+    (∀ inv, EncodeOk (encOfExcept (eucTwEncode inv)) chars) ∧
+    (∀ table, getUnrepresentable (encOfExcept (charmapEncode table)) chars =
+      .ok (chars.filter fun c => encOfExcept (charmapEncode table) c != .ok)) ∧
+    getUnrepresentable (encOfExcept eucTwEncodeReal) chars = .ok (chars.filter fun c => encOfExcept eucTwEncodeReal c != .ok) := by
+  refine ⟨fun t => encodeOk_charmap t chars, fun inv => encodeOk_eucTw inv chars, fun t => ?_, ?_⟩
+  · have h := encodeOk_charmap t chars
+    exact getUnrepresentable_spec _ chars h.pieces h.joined h.prefixClosed
+  · have h := encodeOk_eucTw invReal chars
+    exact getUnrepresentable_spec _ chars h.pieces h.joined h.prefixClosed
 
 /-- **the other tags**, for every name and environment: `unknown-encoding` iff no usable codec (and the name is not the
     template's CHARSET), `non-ascii-compatible-encoding` iff the repertoire does not decode to itself,
